@@ -60,3 +60,12 @@ package concurrencylimiter
 //@   call select.send ghost sent = sent + 1
 //@   call WithValue ghost made = made + 1
 //@   ensures sent == made && sent <= 1
+// every acquisition under a limiter takes a token of its own (also one made from a context that already carries a holder:
+// that holder belongs to another goroutine's acquisition), unless the context was done
+//@   ghost limited bool
+//@   ghost gaveUp bool
+//@   entry ghost limited = false
+//@   entry ghost gaveUp = false
+//@   call Value#1 ghost limited = (ret0 is *limiter)
+//@   call select.recv ghost gaveUp = true
+//@   ensures limited && !gaveUp ==> sent == 1
